@@ -1,4 +1,85 @@
-From Coq Require Import ZArith List.
-From PV Require Import Base.U64 C13.C13_Model C13.C13_Msg C13.C13_Proofs.
-Theorem c13_placeholder : True. Proof. exact placeholder. Qed.
-Print Assumptions c13_placeholder.
+From Coq Require Import ZArith List Bool.
+From PV Require Import Base.U64 C13.C13_Model C13.C13_Msg C13.C13_Proofs C13.C13_MsgProofs C13.C13_Statements.
+Import ListNotations.
+Local Open Scope Z_scope.
+
+Theorem body_length_exact :
+  forall (partial : bytes) (ps : pieces) (err : bool) (n : Z) (counts : list Z),
+    0 <= n < MAX64 -> n <= zlen (partial ++ concat ps) ->
+    Forall (fun c => 0 <= c) counts ->
+    let body := ztake n (partial ++ concat ps) in
+    let '(l, s') := brs_run (brs_init partial n ps err) counts in
+    outs l = ztake (zsum counts) body
+    /\ Forall2 (fun r o => r = zlen o) (rets l) (map snd l)
+    /\ brs_data s' = zdrop (Z.min (zsum counts) n) (partial ++ concat ps)
+    /\ (n <= zsum counts -> forall c, 0 <= c -> exists s'', brs_read s' c = (0, [], s'')).
+Proof. exact body_length_exact_proof. Qed.
+Print Assumptions body_length_exact.
+
+Theorem body_close_delimited_exact :
+  forall (partial : bytes) (ps : pieces) (counts : list Z),
+    Forall (fun c => 0 <= c) counts ->
+    let all := partial ++ concat ps in
+    let '(l, s') := brs_run (brs_init partial MAX64 ps false) counts in
+    outs l = ztake (zsum counts) all
+    /\ Forall2 (fun r o => r = zlen o) (rets l) (map snd l)
+    /\ (zlen all <= zsum counts -> forall c, 0 <= c -> exists s'', brs_read s' c = (0, [], s'')).
+Proof. exact body_close_delimited_exact_proof. Qed.
+Print Assumptions body_close_delimited_exact.
+
+Theorem chunked_writer_wire : forall (ws : list bytes) (s : cws),
+  cw_finish s = false ->
+  zlen (chunks_wire ws) + 5 <= w_budget (cw_sock s) ->
+  let '(l, s1) := cws_run s ws in
+  let '(r, s2) := cws_close s1 in
+  l = map zlen ws /\ r = 0 /\ cw_finish s2 = true
+  /\ w_out (cw_sock s2) = w_out (cw_sock s) ++ chunks_wire ws ++ [48; 13; 10; 13; 10].
+Proof. exact chunked_writer_wire_proof. Qed.
+Print Assumptions chunked_writer_wire.
+
+Theorem terminator_search_window : forall (old bs : bytes),
+  find_term old = None ->
+  let left := Z.max (zlen old - 3) 0 in
+  find_term (zdrop left (old ++ bs)) =
+  match find_term (old ++ bs) with Some k => Some (k - left) | None => None end.
+Proof. exact terminator_search_window_proof. Qed.
+Print Assumptions terminator_search_window.
+
+Theorem append_bytes_split_independent : forall (m : msg) (bs : bytes),
+  m_status m <> HEADER_PARSED -> zlen bs < 65536 ->
+  find_term (m_rx m) = None ->
+  append_bytes m bs = parse_whole m (m_rx m ++ bs).
+Proof. exact append_bytes_split_independent_proof. Qed.
+Print Assumptions append_bytes_split_independent.
+
+Theorem parse_step_fragmentation_independent : forall (m1 m2 : msg) (bs1 bs2 : bytes),
+  m_status m1 <> HEADER_PARSED -> zlen bs1 < 65536 -> zlen bs2 < 65536 ->
+  find_term (m_rx m1) = None -> find_term (m_rx m2) = None ->
+  m_rx m1 ++ bs1 = m_rx m2 ++ bs2 ->
+  m2 = mkMsg (m_is_req m1) (m_cap m1) (m_fill m1) (m_rx m2) (m_status m1) (m_verb m1) (m_target m1)
+             (m_version m1) (m_stmsg m1) (m_code m1) (m_body m1) (m_hoff m1) (m_hdrs m1) (m_abandon m1) ->
+  match append_bytes m1 bs1, append_bytes m2 bs2 with
+  | Some (r1, a), Some (r2, b) =>
+      r1 = r2 /\ (r1 <> -1 \/ m_cap m1 > zlen (m_rx m1 ++ bs1) -> a = b)
+  | None, None => True
+  | _, _ => False
+  end.
+Proof. exact append_bytes_two_splits_proof. Qed.
+Print Assumptions parse_step_fragmentation_independent.
+
+Theorem parse_depends_on_stale_byte_refuted :
+  exists (bytes : bytes) (fill1 fill2 : Z),
+    ret_of (receive_header 10 (msg_init false 16384 fill1 2) [bytes] false) = 0 /\
+    ret_of (receive_header 10 (msg_init false 16384 fill2 2) [bytes] false) = -1.
+Proof. exact parse_depends_on_stale_byte_refuted_proof. Qed.
+Print Assumptions parse_depends_on_stale_byte_refuted.
+
+Theorem parse_fragmentation_dependent_malformed_refuted :
+  exists (bytes : bytes) (ps1 ps2 : pieces),
+    concat ps1 = bytes /\ concat ps2 = bytes /\
+    ret_of (receive_header 10 (msg_init true 16384 0 0) ps1 false) = 0 /\
+    ret_of (receive_header 10 (msg_init true 16384 0 0) ps2 false) = 0 /\
+    nkv_of (receive_header 10 (msg_init true 16384 0 0) ps1 false) = 0 /\
+    nkv_of (receive_header 10 (msg_init true 16384 0 0) ps2 false) = 1.
+Proof. exact parse_fragmentation_dependent_malformed_refuted_proof. Qed.
+Print Assumptions parse_fragmentation_dependent_malformed_refuted.
